@@ -2,7 +2,7 @@
 (* Validation of recorded calls of the real SILK dequantisers and of the    *)
 (* encoder-side quantisers (hx_silk) against module SilkParams.  Stateless: *)
 (* one initial state per recorded case; every event carries the inter-frame *)
-(* references it started from.  Event kinds: gd gq pl nd dp di ne pa (ns,   *)
+(* references it started from.  Event kinds: gd gq pl nd dp di ne pa wc (ns, *)
 (* ne_abort carry no claim).                                               *)
 (*                                                                         *)
 (*   CaseOK    the clauses of property C18 (a rejection is a VIOLATION)     *)
@@ -139,6 +139,27 @@ PaOK(e) ==
         /\ e.ci \in 0..(NContours(e.fs, e.n) - 1)
         /\ e.po = PitchLags(e.li, e.ci, e.fs, e.n)
 
+\* whole codec (SILK-only opus_encode -> opus_decode): for the last frame of a packet and each coded channel, the side
+\* information the encoder quantised and kept (indices, last sub-frame lag, accumulated gain level, quantised NLSF
+\* vector) is what the decoder reconstructed from the packet, and it satisfies the range clauses.  The encoder's
+\* scratch copies of the gain indices and of the seed are not compared: when the rate loop falls back to an earlier
+\* iteration it restores the coder state and the accumulated gain level, not those.
+WcOK(e) ==
+  LET E == e.e  D == e.d  cb == IF e.efs = 16 THEN 1 ELSE 0 IN
+  /\ e.efs \in FsSetKHz /\ e.n \in {2, 4} /\ e.nf \in 1..MaxFramesPerPacket /\ IsBit(e.coded)
+  /\ (e.coded = 1) =>
+       /\ e.dfs = e.efs /\ e.dn = e.n
+       /\ D.st = E.st /\ D.qo = E.qo
+       /\ D.ix = E.ix /\ D.ip = E.ip /\ D.q = E.q /\ D.lg = E.lg
+       /\ D.st \in 0..2 /\ D.lg \in 0..(NLevels - 1)
+       /\ NLSFIndexOK(cb, D.ix) /\ D.q = NLSFDecode(cb, D.ix) /\ NlsfClauses(cb, D.q)
+       /\ \A k \in 1..e.n : GainIndexOK(D.gi[k], k > 1) \/ GainIndexOK(D.gi[k], TRUE)
+       /\ (D.st = 2) =>
+            /\ D.li = E.li /\ D.ci = E.ci /\ D.per = E.per /\ D.ltp = E.ltp /\ D.lsc = E.lsc /\ D.lag = E.lag
+            /\ D.ci \in 0..(NContours(e.efs, e.n) - 1)
+            /\ D.lag = PitchLags(D.li, D.ci, e.efs, e.n)[e.n]
+            /\ D.lag >= MinLag(e.efs) /\ D.lag <= MaxLag(e.efs)
+
 CaseOK == LET e == Tr[l] IN
           IF e.k = "gd" THEN GdOK(e)
           ELSE IF e.k = "gq" THEN GqOK(e)
@@ -148,6 +169,8 @@ CaseOK == LET e == Tr[l] IN
           ELSE IF e.k = "di" THEN DiOK(e)
           ELSE IF e.k = "ne" THEN NeOK(e)
           ELSE IF e.k = "pa" THEN PaOK(e)
+          ELSE IF e.k = "wc" THEN WcOK(e)
+          ELSE IF e.k = "wc_err" THEN TRUE        \* encode/decode call failed: not a clause of this property (the check stops with an infrastructure error)
           ELSE IF e.k = "ne_abort" THEN TRUE      \* input outside the quantiser's 32-bit arithmetic domain: counted, no claim
           ELSE IF e.k = "ns" THEN TRUE
           ELSE FALSE
